@@ -165,13 +165,13 @@ Definition version_check (v : Z) : bool :=
       && pairs_eqb order (spec_order v)
       && (zlength order =? 8 * total_codewords v + remainder_bits v)
       && nodup_cells size order
-      && forallb (fun p => in_rangeb size p && negb (peek occ p) && fixed_none v p) order
-      && forall_cells size (fun x y => Bool.eqb (qm_peek occ x y) (is_function v x y))
-      && forall_cells size (fun x y =>
+      && forallb (fun p => in_rangeb size p && negb (peek occ p)) order
+      && (let fc := format_cells size in
+          forall_cells size (fun x y =>
            match fixed_pattern v x y with
-           | Some b => Bool.eqb (qm_peek res0 x y) b && negb (mem_pair (x, y) (format_cells size))
-           | None => true
-           end)
+           | Some b => qm_peek occ x y && Bool.eqb (qm_peek res0 x y) b && negb (mem_pair (x, y) fc)
+           | None => Bool.eqb (qm_peek occ x y) (is_format_area v x y || is_version_area v x y)
+           end))
       && targets_eqb (format_targets size) (format_cells size) (sseq 0 15 ++ sseq 0 15)
       && nodup_cells size (format_cells size)
       && forallb (fun p => in_rangeb size p && peek occ p && fixed_none v p) (format_cells size)
@@ -235,21 +235,34 @@ Theorem layout_facts_of_version v : 1 <= v <= 40 ->
 Proof.
   intros Hv. pose proof qr_layout_all_versions as H. rewrite forallb_forall in H.
   specialize (H v (in_all_versions v Hv)). unfold version_check in H.
-  destruct (base_matrix v) as [[occ res0]| | |]; try discriminate.
-  destruct (iterate_modules occ) as [order| | |]; try discriminate.
-  exists occ, res0, order. split; [reflexivity|]. split; [reflexivity|].
+  destruct (base_matrix v) as [[occ res0]| | |] eqn:Ebase; try discriminate.
+  destruct (iterate_modules occ) as [order| | |] eqn:Eiter; try discriminate.
+  exists occ, res0, order. split; [reflexivity|]. split; [exact Eiter|].
   apply andb_true_iff in H. destruct H as [H Hver].
   apply andb_true_iff in H. destruct H as [H Hvi].
   apply andb_true_iff in H. destruct H as [H Hfc].
   apply andb_true_iff in H. destruct H as [H Hfnd].
   apply andb_true_iff in H. destruct H as [H Htg].
-  apply andb_true_iff in H. destruct H as [H Hpat].
-  apply andb_true_iff in H. destruct H as [H Hocc].
+  apply andb_true_iff in H. destruct H as [H Hcells].
   apply andb_true_iff in H. destruct H as [H Hoc].
   apply andb_true_iff in H. destruct H as [H Hnd].
   apply andb_true_iff in H. destruct H as [H Hlen].
   apply andb_true_iff in H. destruct H as [H Hord].
   apply andb_true_iff in H. destruct H as [Hd1 Hd2].
+  cbv zeta in Hcells.
+  assert (Hcell : forall x y, 0 <= x < spec_size v -> 0 <= y < spec_size v ->
+            match fixed_pattern v x y with
+            | Some b => qm_peek occ x y = true /\ qm_peek res0 x y = b
+                        /\ ~ In (x, y) (format_cells (spec_size v))
+            | None => qm_peek occ x y = (is_format_area v x y || is_version_area v x y)
+            end).
+  { intros x y Hx Hy. pose proof (forall_cells_spec _ _ Hcells x y Hx Hy) as E. cbv beta in E.
+    destruct (fixed_pattern v x y) as [b|].
+    - apply andb_true_iff in E. destruct E as [E E3].
+      apply andb_true_iff in E. destruct E as [E1 E2].
+      split; [exact E1|]. split; [apply Bool.eqb_prop; exact E2|].
+      apply mem_pair_false. apply negb_true_iff in E3. exact E3.
+    - apply Bool.eqb_prop in E. exact E. }
   constructor.
   - lia.
   - lia.
@@ -257,16 +270,15 @@ Proof.
   - lia.
   - apply nodup_cells_sound. exact Hnd.
   - intros p Hp. rewrite forallb_forall in Hoc. specialize (Hoc p Hp).
-    apply andb_true_iff in Hoc. destruct Hoc as [Hoc H3].
     apply andb_true_iff in Hoc. destruct Hoc as [H1 H2].
-    split; [apply in_rangeb_spec; exact H1|]. split; [|apply fixed_none_spec; exact H3].
-    apply negb_true_iff in H2. exact H2.
-  - intros x y Hx Hy. pose proof (forall_cells_spec _ _ Hocc x y Hx Hy) as E.
-    apply Bool.eqb_prop in E. exact E.
-  - intros x y b Hx Hy Hfp. pose proof (forall_cells_spec _ _ Hpat x y Hx Hy) as E.
-    cbv beta in E. rewrite Hfp in E. apply andb_true_iff in E. destruct E as [E1 E2].
-    split; [apply Bool.eqb_prop; exact E1|].
-    apply mem_pair_false. apply negb_true_iff in E2. exact E2.
+    apply in_rangeb_spec in H1. apply negb_true_iff in H2.
+    split; [exact H1|]. split; [exact H2|].
+    destruct H1 as [Hx Hy]. specialize (Hcell (fst p) (snd p) Hx Hy).
+    destruct (fixed_pattern v (fst p) (snd p)) as [b|]; [|reflexivity].
+    destruct Hcell as [Ho _]. unfold peek in H2. congruence.
+  - intros x y Hx Hy. specialize (Hcell x y Hx Hy). unfold is_function.
+    destruct (fixed_pattern v x y) as [b|]; [tauto|exact Hcell].
+  - intros x y b Hx Hy Hfp. specialize (Hcell x y Hx Hy). rewrite Hfp in Hcell. tauto.
   - unfold targets_eqb in Htg. apply andb_true_iff in Htg. destruct Htg as [T1 T2].
     apply pairs_eqb_eq in T1. apply pairs_eqb_eq in T2. split; [exact T1|].
     apply map_snd0_inj. rewrite map_map. exact T2.
